@@ -430,11 +430,17 @@ func VerifH_C04_Sentences() {
 	}
 	n := 1 + vrt.Choice("n", K)
 	var toks []c04Tok
+	for i := 0; i < n; i++ {
+		toks = append(toks, alpha[vrt.Choice("t"+strconv.Itoa(i), len(alpha))])
+	}
+	vrt.Reach("c04.sentences.n" + strconv.Itoa(n))
+	c04CheckSentence(toks)
+}
+
+func c04CheckSentence(toks []c04Tok) {
 	text := ""
 	hasBadNum, emptyParens := false, false
-	for i := 0; i < n; i++ {
-		t := alpha[vrt.Choice("t"+strconv.Itoa(i), len(alpha))]
-		toks = append(toks, t)
+	for i, t := range toks {
 		if i > 0 {
 			text += " "
 		}
@@ -463,7 +469,6 @@ func VerifH_C04_Sentences() {
 	}
 	vrt.Class("C04-exponent-number-accepted", hasBadNum)
 	vrt.Class("C04-empty-parentheses-accepted", emptyParens)
-	vrt.Reach("c04.sentences.n" + strconv.Itoa(n))
 	_, err := NewExprMachine(text, c02MapFn)
 	if err != nil {
 		vrt.Observe("verdict", text, "rejected", verdict)
@@ -475,6 +480,76 @@ func VerifH_C04_Sentences() {
 		return
 	}
 	vrt.Assert((err == nil) == (verdict == vAccept), "c04.sentence-verdict")
+}
+
+// ---- a fragment inside well-formed surroundings: a construct that must be rejected
+// stays rejected when a correct function call, operator or parenthesis is wrapped
+// around it or follows it (errors recorded by grammar actions must survive later
+// reductions), and an accepted one stays accepted.
+
+func c04Toks(words ...string) []c04Tok {
+	var out []c04Tok
+	for _, w := range words {
+		found := false
+		for _, t := range c04Alphabet {
+			if t.text == w {
+				out = append(out, t)
+				found = true
+			}
+		}
+		if !found {
+			out = append(out, c04Tok{w, tName})
+		}
+	}
+	return out
+}
+
+// "F" is the hole
+var c04Contexts = [][]string{
+	{"not", "(", "F", ")"},
+	{"count", "(", "F", ")"},
+	{"F", "or", "true", "(", ")"},
+	{"true", "(", ")", "and", "F"},
+	{"string", "(", "1", ")", "=", "F"},
+	{"F", "=", "string", "(", "1", ")"},
+	{"(", "F", ")"},
+	{"-", "F"},
+	{"concat", "(", "'x'", ",", "F", ")"},
+	{"not", "(", "not", "(", "F", ")", ")"},
+	{"a", "[", "F", "]"},
+	{"F", "|", "a"},
+}
+
+var c04Fragments = [][]string{
+	{"true", "(", "1", ")"}, {"boolean", "(", ")"}, {"not", "(", ")"}, {"concat", "(", "'x'", ")"},
+	{"substring", "(", "'x'", ",", "1", ")"}, {"bogus", "(", ")"}, {"child", "::", "a"}, {"a", "//", "b"},
+	{"text", "(", ")"}, {"node", "(", ")"}, {"a", "/", "@", "a"}, {"p:*"}, {"q:c"},
+	{"true", "(", ")"}, {"count", "(", "a", ")"}, {"a", "/", "b"}, {"current", "(", ")", "/", "a"},
+	{"substring", "(", "'x'", ",", "1", ",", "1", ")"}, {"a", "[", "b", "=", "1", "]"},
+}
+
+func VerifH_C04_Contexts() {
+	K := vrt.Param("K", 2)
+	var frag []c04Tok
+	if vrt.Bool("listed") {
+		frag = c04Toks(c04Fragments[vrt.Choice("fragment", len(c04Fragments))]...)
+	} else {
+		n := 1 + vrt.Choice("n", K)
+		for i := 0; i < n; i++ {
+			frag = append(frag, c04Alphabet[vrt.Choice("t"+strconv.Itoa(i), len(c04Alphabet))])
+		}
+	}
+	ctx := c04Contexts[vrt.Choice("context", len(c04Contexts))]
+	var toks []c04Tok
+	for _, w := range ctx {
+		if w == "F" {
+			toks = append(toks, frag...)
+		} else {
+			toks = append(toks, c04Toks(w)...)
+		}
+	}
+	vrt.Reach("c04.contexts")
+	c04CheckSentence(toks)
 }
 
 // ---------------------------------------------------------------- leafref path-arg (RFC 6020 §12)
